@@ -93,10 +93,23 @@ def parse_reports(out):
     return res
 
 
+def directed_scripts():
+    """ignore patterns whose meaning depends on each being matched on its own (groups, back-references, anchors),
+    with leaked threads whose names only one of them matches"""
+    out = []
+    for ignore in (["(w)orker-9", "(\\w+)=\\1"], ["ign$|x", "w\\d+$"], ["(?i)ign", "W\\d"], ["IGN", "ign"]):
+        tests = [{"id": 0, "actions": [["start", 0, "threading", "ab=ab-0"], ["start", 1, "threading", "worker-9"],
+                                        ["start", 2, "threading", "w2"]]},
+                 {"id": 1, "actions": [["start", 3, "threading", "IGN-3"], ["start", 4, "threading", "ign-4"],
+                                        ["start", 5, "threading", "ab=cd-5"]]}]
+        out.append({"tests": tests, "ignore": ignore})
+    return out
+
+
 def run(ctx):
     rng = ctx.rng
     n = 25 if ctx.quick() else 400
-    scripts = [gen_script(rng) for _ in range(n)]
+    scripts = directed_scripts() + [gen_script(rng) for _ in range(n)]
     import concurrent.futures
     with concurrent.futures.ThreadPoolExecutor(max_workers=8) as ex:
         reals = list(ex.map(lambda a: run_real(ctx, a[1], a[0]), enumerate(scripts)))
